@@ -1584,6 +1584,26 @@ impl Transaction {
         }
 
         //
+        // outputs created more than a genesis period ago have been rebroadcast or
+        // collected by the ATR mechanism and can no longer be spent by their owner
+        //
+        if validate_against_utxo
+            && self.transaction_type != TransactionType::ATR
+            && self.transaction_type != TransactionType::Issuance
+        {
+            let oldest_spendable_block_id =
+                (blockchain.get_latest_block_id() + 1).saturating_sub(blockchain.genesis_period);
+            if self.from.iter().any(|slip| {
+                slip.amount > 0
+                    && slip.slip_type != SlipType::Bound
+                    && slip.block_id < oldest_spendable_block_id
+            }) {
+                error!("ERROR 582041: transaction spends an input older than the genesis period");
+                return false;
+            }
+        }
+
+        //
         // spent transaction slips must be spendable (in hashmap)
         //
         return if validate_against_utxo {
